@@ -257,10 +257,11 @@ def _semantic(p, led, lys, res, Q):
                 except PyRaise as e:
                     return dict(raised=repr(e.exc))
                 q = L.fields[Q]
-                raised_n = sum(1 for lab, c in it.o.labels if lab.startswith("adversarial digester") and c in (2, 3))
+                raised_n = sum(1 for lab, c in it.o.labels if lab.startswith("adversarial digester") and c == 2)
+                junk_n = sum(1 for lab, c in it.o.labels if lab.startswith("adversarial digester") and c == 3)
                 f = r.fields if isinstance(r, Obj) else {}
                 return dict(q=[idx(ws, x) for x in q], handled=[idx(ws, x) for kind, x in log if kind == "digester"], disposed=f.get("disposed"), nerr=len(f.get("errors", [])) if isinstance(f.get("errors"), list) else None,
-                            success=f.get("success"), raised_n=raised_n, dig=(L.fields[DIG], d0))
+                            success=f.get("success"), raised_n=raised_n, junk_n=junk_n, dig=(L.fields[DIG], d0))
             try:
                 paths = [r for _, r in explore(go, max_paths=800)]
             except Imprecise as e:
@@ -290,8 +291,10 @@ def _semantic(p, led, lys, res, Q):
                 if not r["handled"] == [i for i in r["handled"] if i in taken]:
                     probs.append(("C13-R4", f"{tag}: digesters ran on {r['handled']}, the queue lost {taken}"))
                 if r["disposed"] is not None and r["nerr"] is not None:
-                    if r["nerr"] != r["raised_n"]:
-                        probs.append(("C13-R5", f"{tag}: {r['raised_n']} digester failure(s) but {r['nerr']} recorded in errors: a failed item is neither digested nor reported"))
+                    # a digester that raised is an error; one that returned something unusable may be filed either way
+                    # (reported as failed, or disposed of with nothing salvaged) — but only one way
+                    if not (r["raised_n"] <= r["nerr"] <= r["raised_n"] + r["junk_n"]):
+                        probs.append(("C13-R5", f"{tag}: {r['raised_n']} digester failure(s) (+{r['junk_n']} unusable result(s)) but {r['nerr']} recorded in errors: a failed item is neither digested nor reported"))
                     if r["disposed"] + r["nerr"] != len(taken):
                         probs.append(("C13-R5", f"{tag}: disposed {r['disposed']} + errors {r['nerr']} ≠ {len(taken)} items taken: an item is unaccounted (or counted although it failed)"))
                     if r["success"] is not (r["nerr"] == 0):
